@@ -266,7 +266,7 @@ def auditedFuncs : List (String × String × String) := [
   ("amd/timing/cu/computeunit.go", "ComputeUnit.handleMapWGReq", "a9c42c0cf7e2f58e"),
   ("amd/timing/cu/computeunit.go", "ComputeUnit.clearWGResource", "ea14272885ad9288"),
   ("amd/timing/cu/computeunit.go", "ComputeUnit.handleFetchReturn", "7732d8dd61131722"),
-  ("amd/timing/cu/computeunit.go", "ComputeUnit.handleScalarDataLoadReturn", "bf6e3ae1093d0fbf"),
+  ("amd/timing/cu/computeunit.go", "ComputeUnit.handleScalarDataLoadReturn", "31e1fa387f112e69"),
   ("amd/timing/cu/computeunit.go", "ComputeUnit.isLastRead", "6693d09d147887ca"),
   ("amd/timing/cu/computeunit.go", "ComputeUnit.handleVectorDataLoadReturn", "f078ad1db4d8814b"),
   ("amd/timing/cu/computeunit.go", "ComputeUnit.handleVectorDataStoreRsp", "075ec747ca9fcc14"),
@@ -282,12 +282,15 @@ def auditedFuncs : List (String × String × String) := [
   ("amd/timing/cu/computeunit.go", "ComputeUnit.setWavesToReady", "bcddb11cd1a6b65a"),
   ("amd/timing/cu/vectormemoryunit.go", "VectorMemoryUnit.Run", "c68373828b92cc9a"),
   ("amd/timing/cu/vectormemoryunit.go", "VectorMemoryUnit.instToTransaction", "f4606185f9b0f95b"),
-  ("amd/timing/cu/vectormemoryunit.go", "VectorMemoryUnit.insertTransactionToPipeline", "edbb8ced131689b0"),
+  ("amd/timing/cu/vectormemoryunit.go", "VectorMemoryUnit.insertTransactionToPipeline", "77f439160dac4605"),
   ("amd/timing/cu/vectormemoryunit.go", "VectorMemoryUnit.computeCoalescingPenalty", "6d6fe2b42397dad9"),
   ("amd/timing/cu/vectormemoryunit.go", "VectorMemoryUnit.executeFlatLoad", "2efb11ce5908e120"),
   ("amd/timing/cu/vectormemoryunit.go", "VectorMemoryUnit.executeFlatStore", "f5c6a23b598e601d"),
-  ("amd/timing/cu/vectormemoryunit.go", "VectorMemoryUnit.sendRequest", "abedfff17c9cb257"),
-  ("amd/timing/cu/vectormemoryunit.go", "VectorMemoryUnit.Flush", "258c99a10c031999"),
+  ("amd/timing/cu/vectormemoryunit.go", "VectorMemoryUnit.sendRequest", "5bacd1145532cf95"),
+  ("amd/timing/cu/vectormemoryunit.go", "VectorMemoryUnit.Flush", "5c6f0ef19b88add2"),
+  ("amd/timing/cu/vectormemoryunit.go", "VectorMemoryUnit.canAcceptTransaction", "768ee07adcb42269"),
+  ("amd/timing/cu/vectormemoryunit.go", "VectorMemoryUnit.setAsideTransaction", "0f27e4879b03e92e"),
+  ("amd/timing/cu/vectormemoryunit.go", "orderedTransaction.is", "875e4123de01c83e"),
   ("amd/timing/cu/issuearbiter.go", "IssueArbiter.Arbitrate", "ced3994b7fa48de1"),
   ("amd/timing/cu/issuearbiter.go", "IssueArbiter.isAllWfPoolsEmpty", "3e4d850c398947c8"),
   ("amd/timing/cu/scheduler.go", "SchedulerImpl.DoIssue", "31e1408965ab1e10"),
